@@ -50,12 +50,10 @@ Proof.
   assert (Hn : length ex2_now = 17%nat) by reflexivity.
   unfold ex2_st in Hin. cbn [st_linked] in Hin.
   destruct Hin as [<-|[<-|[]]].
-  - match goal with |- context [LDr ?j (Some ?pe) ?eth ?oth ?dl ?lf ?r] =>
-      destruct (inplace_dr_decodes ex2_st ex2_m ex2_fp ex2_now ex2_ws 69 j pe eth oth dl lf r rest
-                  ip_ex2_wf Hn Hc ip_ex2_done ltac:(left; reflexivity)) as [H _]; exact H end.
-  - match goal with |- context [LDr ?j (Some ?pe) ?eth ?oth ?dl ?lf ?r] =>
-      destruct (inplace_dr_decodes ex2_st ex2_m ex2_fp ex2_now ex2_ws 69 j pe eth oth dl lf r rest
-                  ip_ex2_wf Hn Hc ip_ex2_done ltac:(right; left; reflexivity)) as [H _]; exact H end.
+  - destruct (inplace_dr_decodes ex2_st ex2_m ex2_fp ex2_now ex2_ws 69 _ _ _ _ _ _ _ rest
+                ip_ex2_wf Hn Hc ip_ex2_done (or_introl eq_refl)) as [H _]. exact H.
+  - destruct (inplace_dr_decodes ex2_st ex2_m ex2_fp ex2_now ex2_ws 69 _ _ _ _ _ _ _ rest
+                ip_ex2_wf Hn Hc ip_ex2_done (or_intror (or_introl eq_refl))) as [H _]. exact H.
 Qed.
 
 (* ---- zero padding ---- *)
@@ -76,9 +74,9 @@ Example ip_exn_wf : wf_state exn_st exn_m = true.
 Proof. vm_compute. reflexivity. Qed.
 
 Theorem inplace_refused_writes_nothing_refuted :
-  exists st m length fp now ws,
-    wf_state st m = true /\ length now = 17%nat /\ st_ino_len st = 0 /\ length = -5 /\
-    modify_run st length fp now = Partial ws /\ In (4, [0]) ws.
+  exists st m len fp now ws,
+    wf_state st m = true /\ length now = 17%nat /\ st_ino_len st = 0 /\ len = -5 /\
+    modify_run st len fp now = Partial ws /\ In (4, [0]) ws.
 Proof.
   exists exn_st, exn_m, (-5), [], exn_now.
   exists (match modify_run exn_st (-5) [] exn_now with Partial ws => ws | _ => [] end).
